@@ -9,8 +9,10 @@ ids = [p['id'] for p in props]
 
 TRUST = ("Trusted: rustc's MIR printer (nightly; the stable compiler lowers the same source), the MIR executor and the std models "
          "listed in the evidence file, z3 5.1.0 (deciding) with z3 4.8.12 and cvc5 1.0.3 re-deciding the final obligations. "
-         "Encoder and oracles are validated against the real build on fixed and seeded vectors before any symbolic query; every solver "
-         "counterexample is replayed on the real build (dev and release) and only a reproduced difference is reported as a VIOLATION. "
+         "Where a kernel has a concrete twin, encoder and oracles are validated against the real build on fixed and seeded vectors before "
+         "any symbolic query. A solver counterexample that is an INPUT is replayed on the real build (dev and release) and only a "
+         "reproduced difference is reported; where the counterexample is an interpreter STATE (ledgers, frames) the check replays "
+         "witness programs and otherwise reports the symbolic counterexample as such (DESIGN.md 9.2). "
          "A pass says nothing outside the stated kernels and bounds.")
 TECH = "SMT-based symbolic execution of the compiler's MIR for the real functions (z3; cvc5 and a second z3 re-decide)"
 
@@ -163,7 +165,7 @@ CHECKS = {
  'C18': dict(design='section 3, C18', text=(
     "Whole property within bounds. Symbolic execution of the real MIR of ModulePath::{resolve,normalize_path,parent,is_bare,is_relative} "
     "for EVERY specifier and importer (present or absent) within the byte bounds (quick: spec<=6, importer<=6, <=3 slashes; thorough: "
-    "spec<=10, importer<=8, <=6 slashes) over the alphabet '/.abts': on each feasible path the solver shows the result equals a reference "
+    "spec<=7, importer<=7, <=3 slashes) over the alphabet '/.abts': on each feasible path the solver shows the result equals a reference "
     "resolver written from the property statement, is a canonical absolute path when the importer is absolute, is a fixed point of "
     "resolve, and that bare specifiers are untouched.")),
 }
